@@ -205,8 +205,8 @@ func TestVF_C02TimeCache(t *testing.T) {
 		nconc = 20000
 	}
 	for _, ls := range []bool{false, true} {
-		for k := 0; k < nconc; k += 500 {
-			emit(ls, time.Hour, time.Hour, vfRunTCConc(t, ls, 500, 16))
+		for k := 0; k < nconc; k += 100 {
+			emit(ls, time.Hour, time.Hour, vfRunTCConc(t, ls, 100, 16))
 		}
 	}
 	shard := 400
